@@ -123,7 +123,7 @@ func (d *Deploy) AddNode(addr, role string) *Node {
 		name := strings.ToUpper(argv[0])
 		n.conns.Store(c.ID, c)
 		var act fr.Action
-		if !userCmd[name] {
+		if !userCmd[name] && !(len(argv) > 1 && (name == "PUBLISH" || name == "SUBSCRIBE" || (name == "ECHO" && strings.HasPrefix(argv[1], "u:")))) {
 			c.Ext["fs.cur"] = (*Arrival)(nil)
 			return act
 		}
